@@ -83,6 +83,8 @@ _SLICE_FALLBACK = _DNA_FALLBACK + [("dna_string::verif::d_slice_eq_b", "slice ==
 UNIT_FALLBACK = {
     "dnastring": _DNA_FALLBACK,
     "packedset": _DNA_FALLBACK,
+    "extend": _DNA_FALLBACK + [("dna_string::verif::d_rc_reverse_b_33", "rc / reverse: 33 bases"), ("dna_string::verif::d_to_bytes_b_33", "to_bytes / to_ascii_vec: 33 bases"),
+               ("dna_string::verif::d_from_acgt_bytes_b_31", "from_acgt_bytes on 31 bytes")],
     "dnaslice": _SLICE_FALLBACK,
     "nodeiter": _SLICE_FALLBACK + [("graph::verif::g_node_iter_seq", "3 calls next()/nth(n<=9) on a 9-base node")],
     "scan": [("msp::verif::m_scan_p2_k2m5", "P = Kmer2, k = 2, m = 5")],
@@ -128,6 +130,8 @@ LMER_KS_ALL = [64, 48, 32, 31, 20, 16, 15, 8, 5, 4, 3]
 SEAM_NOTE = ("Seam: Verus proves generic container code against the trait-level Mer/Kmer contract (verus/units/prelude.rs); "
              "Kani discharges those clauses on the real impls of each shipped k-mer type (families k_get, k_set_slice_mut, "
              "k_rc, k_extend_right, k_empty, k_from_bytes, k_len). A downstream impl of Kmer is not covered.")
+ADAPTER_NOTE = 'R21 seams (unit extend): `impl Iterator<Item = u8>` / Peekable are the ghost item source ByteSrc (next / peek by contract); `s.iter().cloned()`, `s.iter().map(f)`, `text.chars().map(f)`, `(0..n).rev().map(f)` yield f of the items in (reverse) order; `collect::<Vec<u8>>()` is the push-until-None loop over the real DnaStringIter::next (verified loop, assumed to be what std does); `values.iter().rev()` by its vstd specification'
+
 VERUS_TRUST = [
     "Verus 0.2026.09.13 / Z3 are sound; the extractor (verus/extract.py) copies function bodies verbatim and applies only rewrite rules R1-R15 (listed in its header, counted per function in coverage.extraction)",
     "vstd specifications of Vec, Option, Range, String::push/new; assumed: std::cmp::min, String::with_capacity (prelude.rs)",
@@ -138,14 +142,15 @@ PROPS["C12"] = {
     "title": "Reverse complement is coherent across all sequence types",
     "kani": lambda tier: kfam(["k_rc", "k_min_rc", "k_canon"], tier) + exts(["x_rc", "x_complement", "x_reverse"])
         + lmer(["l_rc", "l_rc_empty"], tier) + tables(["t_complement"]),
-    "verus": [("dnaslice", r"^(DnaStringSlice::(rc|get|get_kmer|slice)|complement|DnaString::(get|get_kmer|slice|prefix|suffix))$")],
+    "verus": [("dnaslice", r"^(DnaStringSlice::(rc|get|get_kmer|slice)|complement|DnaString::(get|get_kmer|slice|prefix|suffix))$"),
+              ("extend", r"^DnaString::(rc|reverse|extend)$|^collect_bytes$")],
     "bounded": lambda tier: [("dna_string::verif::d_rc_reverse_b_33", "DnaString::rc / reverse on a 33-base string (symbolic contents)"),
                              ("dna_string::verif::d_rc_reverse_b_64", "DnaString::rc / reverse on a 64-base string (two full blocks)")],
     "design_ref": "DESIGN.md §6 C12",
-    "undecided": ["DnaString::rc for every length (body uses Peekable/rev/map adapters neither verifier reaches unboundedly): bounded stand-in only"],
-    "trust": VERUS_TRUST + [SEAM_NOTE],
-    "level_text": "k-mer rc (positional law, involution, inv), canonical form / palindrome test and Exts rc/complement/reverse are proved for all values by Kani on the real code (complete); Lmer::rc for every capacity N per fixed N (complete); slice rc/get/get_kmer under rc are proved unbounded by Verus on the extracted bodies, incl. that the i-th k-mer of the reverse complement is the rc of the mirrored window.",
-    "level_note": "Trusted: Kani/CBMC, Verus/Z3, extractor rules, the V<->K seam (trait contract assumed in Verus, discharged per shipped type by Kani). DnaString::rc itself is listed under undecided_clauses.",
+    "undecided": [],
+    "trust": VERUS_TRUST + [SEAM_NOTE, ADAPTER_NOTE],
+    "level_text": "k-mer rc (positional law, involution, inv), canonical form / palindrome test and Exts rc/complement/reverse are proved for all values by Kani on the real code (complete); Lmer::rc for every capacity N per fixed N (complete); slice rc/get/get_kmer under rc are proved unbounded by Verus on the extracted bodies, incl. that the i-th k-mer of the reverse complement is the rc of the mirrored window. DnaString::rc and DnaString::reverse are proved as whole functions for every length (Verus unit extend: the real closure `|i| 3 - self.get(i)`, the real extend with both its loops; rule R21 for the iterator adapters).",
+    "level_note": "Trusted: Kani/CBMC, Verus/Z3, extractor rules, the V<->K seam (trait contract assumed in Verus, discharged per shipped type by Kani), std iterator adapters by their stated meaning (R21).",
 }
 
 PROPS["C13"] = {
@@ -166,7 +171,7 @@ PROPS["C13"] = {
 PROPS["C14"] = {
     "title": "Growable DNA string is a faithful sequence container",
     "kani": lambda tier: ["dna_string::verif::d_word_order"],
-    "verus": [("dnastring", None), ("packedset", r"^PackedDnaStringSet::"),
+    "verus": [("dnastring", None), ("packedset", r"^PackedDnaStringSet::"), ("extend", None),
               ("extsdna", r"^(ndiffs|DnaString::hamming_distance|lemma_count_congr|lemma_count_tail)$")],
     "bounded": lambda tier: [("dna_string::verif::d_extend_b_0_33", "extend: empty prefix + 33 items"),
                              ("dna_string::verif::d_extend_b_32_1", "extend: 32-base prefix + 1 item"),
@@ -178,12 +183,12 @@ PROPS["C14"] = {
                              ("dna_string::verif::d_dna_eq_ord_hash_b1", "derived ==/cmp on strings of <= 32 bases")]
         + ([("dna_string::verif::d_dna_eq_ord_hash_b2", "derived ==/cmp/Hash on strings of <= 64 bases (2 words)")] if tier == "thorough" else []),
     "design_ref": "DESIGN.md §6 C14",
-    "undecided": ["extend / from_bytes / from_dna_string / rc / reverse / to_bytes / to_ascii_vec / Display (Peekable and iterator adapters): no unbounded contract; fixed-length bounded stand-ins only",
-                  "PackedDnaStringSet::add (generic IntoIterator + Borrow): bounded stand-in only",
+    "undecided": ["Display for DnaString (`for v in self.iter()` over the crate's own iterator type inside a for-loop): bounded stand-in only",
+                  "PackedDnaStringSet::add is proved at the instance S = Vec<u8>, R = u8 of its generic item source (R21), for sequences of up to i32::MAX items (its counter `length` is an i32 by integer fallback)",
                   "derived Ord: word-level order fact complete (d_word_order); whole-string lexicographic law only as a bounded stand-in",
                   "derived ==/Hash: lemma_eq_iff_view proves (storage, len) equal <=> views equal on wf values for all lengths; that the derived impls compare/hash exactly (storage, len) is the derive semantics (assumed; cross-checked by the bounded stand-ins)"],
-    "trust": VERUS_TRUST,
-    "level_text": "Data-structure contract: every DnaString operation under contract (new, with_capacity, blank, push, set_mut, get, len, is_empty, clear, push_bytes, iter/next, addr/get_by_addr/set_by_addr) is proved to preserve the representation invariant wf (exact word count, zero padding) and to transform the abstract base vector exactly as the plain-vector operation does, for all lengths (Verus, unbounded). ndiffs / hamming_distance are proved to count the differing positions of two equal-length strings for every length (padding contributes nothing by wf). History quantifier = induction over these per-operation contracts.",
+    "trust": VERUS_TRUST + [ADAPTER_NOTE],
+    "level_text": "Data-structure contract: every DnaString operation under contract (new, with_capacity, blank, push, extend, from_bytes, from_dna_string, from_acgt_bytes (scalar path and vector path steps), to_bytes, to_ascii_vec, reverse, rc, set_mut, get, len, is_empty, clear, push_bytes, iter/next, addr/get_by_addr/set_by_addr; PackedDnaStringSet::new/add/get/slice/len) is proved to preserve the representation invariant wf (exact word count, zero padding) and to transform the abstract base vector exactly as the plain-vector operation does, for all lengths (Verus, unbounded). ndiffs / hamming_distance are proved to count the differing positions of two equal-length strings for every length (padding contributes nothing by wf). History quantifier = induction over these per-operation contracts.",
     "level_note": "Trusted: Verus/Z3, extractor rules, vstd Vec specs. See undecided_clauses for the operations that are not under an unbounded contract.",
 }
 
@@ -204,14 +209,15 @@ PROPS["C15"] = {
 PROPS["C16"] = {
     "title": "ASCII ingestion is total and path-independent",
     "kani": lambda tier: tables(TABLES_ALL) + ["bitops_avx2::verif::a_block"],
-    "verus": [("hashn", r"^DnaString::(from_acgt_bytes_hashn|dna_only_step)$|^dna_only_base_to_bits$")],
+    "verus": [("hashn", r"^DnaString::(from_acgt_bytes_hashn|dna_only_step)$|^dna_only_base_to_bits$"),
+              ("extend", r"^DnaString::(extend|from_acgt_scalar|acgt_vec_step|acgt_vec_finish|from_dna_string|to_ascii_vec)$|^(lemma_vec_path|lemma_vec_path_upto|lemma_packed_tail_\w+|base_to_bits|collect_map|bits_to_ascii)$")],
     "bounded": lambda tier: [("dna_string::verif::d_from_acgt_bytes_b_31", "from_acgt_bytes on 31 bytes, vector path available and not (feature detection nondeterministic)"),
                              ("dna_string::verif::d_to_bytes_b_33", "to_ascii_vec on 33 bases"),
                              ("dna_string::verif::d_hashn_concrete", "from_acgt_bytes_hashn on eight concrete 8-byte reads (a fixed-input check, not a proof)")],
     "design_ref": "DESIGN.md §6 C16",
-    "undecided": ["from_acgt_bytes chunk loop / tail composition for every length and to_ascii_vec round trip: fixed-length bounded stand-ins only",
+    "undecided": ["from_acgt_bytes: its scalar path (with_capacity; map base_to_bits; extend) and every trip and the closing statement of its vector path are under contract for every length and lemma_vec_path composes the trips into `wf and view == base_to_bits of every byte` - the same string on both paths; what is NOT verified is the `for chunk in bytes.chunks(32)` header itself (that chunks(32) yields bytes[32i .. min(32i+32, n)]) and the `is_x86_feature_detected!` branch",
                   "from_dna_only_string: its loop over `dna.chars()` is outside both verifiers (str iteration); the body of that loop IS under contract (hashn::dna_only_step, rule R15: a DNA letter extends the current string, any other character closes a non-empty current string and starts a new one), the whole function is not; from_acgt_bytes_hashn IS decided (unit hashn), but relative to std's hasher being a function of the bytes fed (vstd's DefaultHasher specification plus assumed contracts for the two Hash::hash calls and for cloning the hasher)"],
-    "trust": ["the two AVX2 intrinsic models (_mm256_shuffle_epi8, _mm256_testc_si256) follow the Intel SDM; validated natively against the CPU by `debruijn-replay --validate-avx-models`, not proved"],
+    "trust": VERUS_TRUST + [ADAPTER_NOTE, "Verus unit extend calls convert_bases / pack_32_bases by the contract that Kani harness a_block proves on the real code (lane t of the packed word is base_to_bits(block[t]))", "the two AVX2 intrinsic models (_mm256_shuffle_epi8, _mm256_testc_si256) follow the Intel SDM; validated natively against the CPU by `debruijn-replay --validate-avx-models`, not proved"],
     "level_text": "The six byte tables are proved for all 256 byte values and the vector path (convert_bases + pack_32_bases, real code incl. unsafe loadu) is proved equal to the scalar path on ALL 256^32 blocks, lane by lane, with the valid flag exact (Kani, complete). DnaString::from_acgt_bytes_hashn is proved as a whole function, for every input (Verus unit hashn, rule R20): the result has one base per byte; A/C/G/T in either case give 0/1/2/3; every other byte gives a base < 4 that is a function of the read name and the position only (finish of a hasher fed exactly the read name and the position) - hence repeatable and independent of the vector path, the other bytes and the string length.",
     "level_note": "Trusted: Kani/CBMC; two intrinsic models (Kani cannot translate pshufb / vptest). The chunking loop of from_acgt_bytes is not under an unbounded contract (undecided_clauses).",
 }
